@@ -91,3 +91,20 @@ package fzf
 //@ modifies mg.merged, mg.cursors[*], mg.merged[len(mg.merged):cap(mg.merged)]
 //@ ensures mergerInv(mg) && idx < len(mg.merged) && result == mg.merged[idx]
 //@ ensures forall(k, 0, old(len(mg.merged)), mg.merged[k] == old(mg.merged[k]))
+
+//@ func PassMerger
+//@ property C04 C06
+//@ requires chunks != nil && validChunks(*chunks)
+//@ ensures result != nil && fresh(result) && result.chunks == chunks && result.tac == tac && result.pass && !result.sorted
+//@ ensures result.count == sumc(*chunks, len(*chunks))
+//@ ensures len(*chunks) > 0 ==> result.minIndex == (*chunks)[0].items[0].text.Index
+//@ loop 1
+//@   invariant mg.chunks == chunks && mg.tac == tac && mg.pass && !mg.sorted && mg.count == sumc(*chunks, iter) && mg.minIndex == minIndex
+
+//@ func NewMerger
+//@ property C04
+//@ ensures result != nil && fresh(result) && result.chunks == nil && result.lists == lists && result.sorted == sorted && result.tac == tac && !result.pass && result.minIndex == minIndex
+//@ ensures result.count == sumlen(lists, len(lists)) && len(result.merged) == 0 && len(result.cursors) == len(lists) && forall(l, 0, len(lists), result.cursors[l] == 0)
+//@ loop 1
+//@   invariant mg.chunks == nil && mg.lists == lists && mg.sorted == sorted && mg.tac == tac && !mg.pass && mg.minIndex == minIndex
+//@   invariant mg.count == sumlen(lists, iter) && len(mg.merged) == 0 && len(mg.cursors) == len(lists) && forall(l, 0, len(lists), mg.cursors[l] == 0)
